@@ -40,6 +40,7 @@ ASSUMPTIONS = [
 ]
 
 NAMES = ("x", "y")
+SUPERSET_NAMES = ("x", "y", "u", "w", "abs", "open")  # a different sweep in the same process declares more variables
 FUNCS = ("abs", "min", "max", "round", "float", "int", "str", "bool")
 ALLOWED = {
     ast.Expression, ast.Load, ast.BinOp, ast.UnaryOp, ast.BoolOp, ast.Compare, ast.IfExp, ast.Call,
@@ -396,6 +397,26 @@ def check_source(src: str, family: str, ev, ExpressionError, audit: Audit, col: 
                 case, observed="accepted", expected="ExpressionError")
     if not accepted and info["verdict"] == "safe" and other_exc is None:
         col.labels["info:safe_but_rejected"] += 1
+    # ---- history: the verdict for a declared-name set must not depend on what was compiled before -----------
+    # (the same text is first compiled with a superset of names, then again with the real set)
+    if other_exc is None and info["verdict"] != "syntax":
+        again = None
+        try:
+            try:
+                ev.compile(src, set(SUPERSET_NAMES))
+            except ExpressionError:
+                pass
+            try:
+                ev.compile(src, set(NAMES))
+                again = True
+            except ExpressionError:
+                again = False
+        except BaseException:  # noqa: BLE001 - already reported by the first compile
+            again = None
+        col.labels["history_recompile"] += 1
+        if again is not None and again != accepted:
+            col.add("verdict_depends_on_compile_history", {"first": "accepted" if accepted else "rejected", "verdict": info["verdict"]}, case,
+                    observed="accepted" if again else "rejected", expected="accepted" if accepted else "rejected")
     if not accepted:
         return
     # ---- oracle 2: confinement of accepted expressions -------------------------------------------
@@ -559,4 +580,4 @@ def shrink_candidates(case: Dict[str, Any]) -> Iterator[Dict[str, Any]]:
 
 
 def label_requirements(tier: str) -> Dict[str, Any]:
-    return {"evaluated": 2000, "verdict:unsafe": 0.2, "verdict:safe": 0.01, "d3": 1000, "esc2": 1000}
+    return {"evaluated": 2000, "history_recompile": 10000, "verdict:unsafe": 0.2, "verdict:safe": 0.01, "d3": 1000, "esc2": 1000}
